@@ -1732,7 +1732,18 @@ fn check_c03_equal(c: &mut Ctx) -> Result<(), String> {
                     // or does it point to a row that one peer deleted while another wrote a newer version of it (the row
                     // comes back everywhere, the references the deletion removed locally do not)?
                     let dest = diff.split("dest=").nth(1).map(|s| s.split(' ').next().unwrap_or("")).unwrap_or("");
-                    let target_was_deleted = d0.node_del.iter().chain(d.node_del.iter()).any(|t| crate::kit::hex(&t.id) == dest);
+                    // (the target may live in another room: the deletion records of every room are looked at)
+                    let mut target_was_deleted = d0.node_del.iter().chain(d.node_del.iter()).any(|t| crate::kit::hex(&t.id) == dest);
+                    for rr in 0..c.cfg.rooms {
+                        if rr != r && !target_was_deleted {
+                            for nn in [0, node] {
+                                let dd = dump(c, nn, rr)?;
+                                if dd.node_del.iter().any(|t| crate::kit::hex(&t.id) == dest) {
+                                    target_was_deleted = true;
+                                }
+                            }
+                        }
+                    }
                     match (m0, m1) {
                         (Some(a), Some(b)) if a == b && target_was_deleted => "reference-to-a-row-deleted-on-one-peer-that-came-back-with-a-newer-version",
                         (Some(a), Some(b)) if a == b && cdate < a.0 => "reference-added-with-a-source-version-that-lost",
